@@ -35,11 +35,11 @@ PROBES = ["fault_free_runs", "files_structurally_compared", "adjusted_rules_mask
           "fault:eacces-in", "fault:eio-in", "fault:eio-close-out", "dir_invocation", "file_invocation", "cwd_is_tree", "bystanders_checked",
           "feat:opaque-atrules", "feat:odd-strings", "feat:vendor-hacks", "feat:star-hack", "feat:crlf", "feat:bom", "feat:cdo-cdc",
           "feat:non-ascii", "feat:nesting", "feat:vars", "feat:unicode-seps", "feat:dup-root", "feat:nested-root", "feat:dup-selectors", "feat:comment-in-value", "feat:stale-charset", "feat:css-nesting", "feat:own-colour-elsewhere", "noarg_invocation", "glue_comment_needed", "report_written", "stale_output_overwritten",
-          "cm_named_stylesheet_as_file_argument", "cm_named_stylesheet_as_bystander", "symlinked_stylesheet_input", "real_interpreter_non_utf8_locale_runs", "tmpdir_on_other_filesystem_runs"]
+          "cm_named_stylesheet_as_file_argument", "cm_named_stylesheet_as_bystander", "symlinked_stylesheet_input", "real_interpreter_non_utf8_locale_runs", "tmpdir_on_other_filesystem_runs", "invoked_from_non_main_thread", "second_invocation_in_process:delete-out", "second_invocation_in_process:foreign-out", "second_invocation_in_process:keep"]
 
 C09_FEATURES = gen.ALL_FEATURES
-_NAMES = ("a.css", "b.css", "main.css", "thème.css", "my style.css", "reset.min.css")
-_DIRS = ("", "", "sub/", "sub/deep/")
+_NAMES = ("a.css", "b.css", "main.css", "thème.css", "my style.css", "reset.min.css", "the\u0300me.css")  # (composed and decomposed è)
+_DIRS = ("", "", "", "sub/", "sub/deep/", "sub/deep/", "lib [v2]/", "the[me]1/", "a*b/", "q?x/")
 
 
 def _settings(rng):
@@ -58,7 +58,10 @@ def generate(rseed, tier, idx):
     o = stream(rseed, "order")
     settings = _settings(g)
     env = {"cwd": e.choice(("cwd", "cwd", "tree", "tree/sub", "work [v2]", "a b/c", "\u00fcn\u00ef")), "tty": e.random() < 0.3, "argform": e.choice(("abs", "abs", "rel", "noarg")),
-           "tmp_other_fs": e.random() < 0.12}
+           "tmp_other_fs": e.random() < 0.12, "in_thread": e.random() < 0.12,
+           # the judged invocation is the second one of a long-lived process (watch loop, task runner); between the two
+           # the results of the first were removed / overwritten by something else / left alone
+           "rerun": e.choice((None,) * 8 + ("delete-out", "foreign-out", "keep"))}
     feats_pool = [f for f in C09_FEATURES if f != "many-rules" and g.random() < (0.2 if f == "star-hack" else 0.7)]
     nfiles = g.choice((1, 1, 2, 2, 3, 4))
     tree = {}
@@ -111,6 +114,9 @@ def generate(rseed, tier, idx):
         inv = {"form": "file", "target": cm_named}
     elif g.random() < 0.6 or nfiles > 1:
         inv = {"form": "dir", "target": "."}
+        tops = sorted({r.split("/", 1)[0] for r in inputs if "/" in r})
+        if tops and g.random() < 0.35:
+            inv["target"] = g.choice(tops)  # a sub-directory (whose name may contain spaces, brackets, * or ?) is the argument
     else:
         inv = {"form": "file", "target": g.choice(inputs)}
     if inv["form"] == "dir" and g.random() < 0.3:
@@ -174,7 +180,32 @@ def _setup(trace, tag):
     return root
 
 
-def _invoke(root, trace, faults=(), crash_io=None):
+def _rerun_invocation(root, target, settings, kw, how, outs):
+    def rd(rel):
+        pth = os.path.join(root, rel)
+        if os.path.isfile(pth) and not os.path.islink(pth):
+            with open(pth, "rb") as f:
+                return f.read()
+        return None
+
+    had = {rel: rd(rel) for rel in outs}
+    first = cli_run.cli_exec(root, target, settings, **kw)
+    for rel in outs:
+        pth = os.path.join(root, rel)
+        now = rd(rel)
+        # only what the FIRST invocation wrote is removed / overwritten (a stale file it left alone stays as it was)
+        if now is not None and now != had[rel]:
+            if how == "delete-out":
+                os.unlink(pth)
+            elif how == "foreign-out":
+                with open(pth, "w") as f:
+                    f.write("/* scratch */\n")
+    res = cli_run.cli_exec(root, target, settings, **kw)
+    res["first_exit"] = first["exit"]
+    return res
+
+
+def _invoke(root, trace, faults=(), crash_io=None, outs=()):
     inv, env = trace["inv"], trace["env"]
     target = "tree" if inv["target"] in (".", "") else "tree/" + inv["target"]
     if trace.get("real") and not faults and crash_io is None:
@@ -189,8 +220,12 @@ def _invoke(root, trace, faults=(), crash_io=None):
         except OSError:
             tmpd = None
     try:
-        res = base.in_fork(cli_run.cli_exec, root, target, trace["settings"], cwd_rel=env["cwd"], order_key=trace.get("order_key"),
-                           faults=list(faults), crash_io=crash_io, tty=env["tty"], argform=env["argform"], tmpdir_abs=tmpd, timeout=240)
+        kw = dict(cwd_rel=env["cwd"], order_key=trace.get("order_key"), faults=list(faults), crash_io=crash_io, tty=env["tty"],
+                  argform=env["argform"], tmpdir_abs=tmpd, in_thread=bool(env.get("in_thread")))
+        if env.get("rerun") and not faults and crash_io is None:
+            res = base.in_fork(_rerun_invocation, root, target, trace["settings"], kw, env["rerun"], sorted(outs), timeout=400)
+        else:
+            res = base.in_fork(cli_run.cli_exec, root, target, trace["settings"], timeout=240, **kw)
         if tmpd:
             left = sorted(os.listdir(tmpd))
             res["tmp_left"] = left
@@ -280,9 +315,13 @@ def execute(trace):
             "out": {"tree/" + r[:-4] + "_cm.css" for r in inputs} | {os.path.normpath(os.path.join(cwd_rel, "cm_colors_report.html"))},
         }
         allowed["inputs"] -= allowed["out"]
-        res = _invoke(root, trace)
+        res = _invoke(root, trace, outs=[p for p in allowed["out"] if p.endswith("_cm.css")])
         after = seams.snapshot(root)
         steps += len(res["io"])
+        if env.get("in_thread") and not trace.get("real"):
+            bump("invoked_from_non_main_thread")
+        if env.get("rerun") and not trace.get("real"):
+            bump("second_invocation_in_process:" + env["rerun"])
         n_open = res["n_open"]
         events.append(("free", res["exit"], res["out"], res["err"], res["io"], sorted((k, base.digest(v)) for k, v in after.items())))
         bump("fault_free_runs")
